@@ -10,6 +10,7 @@ import atexit
 import errno
 import os
 import shutil
+import sys
 import tempfile
 
 from vlib import harness
@@ -864,12 +865,29 @@ def plan(tier, seed):
         shards.append(dict(kind="gen", seed=seed, start=s, count=c))
     shards.append(dict(kind="live"))
     shards.append(dict(kind="threads", seed=seed, count=15 if tier == "quick" else 400))
+    # an interpreter whose filesystem encoding is not UTF-8 (a service started with LC_ALL=C, UTF-8 mode and locale coercion
+    # off): every string of the process still follows os.fsdecode()
+    for s, c in harness.split_range(3000 if tier == "quick" else 150_000, 2 if tier == "quick" else 6):
+        shards.append(dict(kind="gen", seed=seed, start=n + s, count=c, env=C_LOCALE_ENV))
+    shards.append(dict(kind="boundary", env=C_LOCALE_ENV))
+    shards.append(dict(kind="live", env=C_LOCALE_ENV))
     return shards
+
+
+C_LOCALE_ENV = {"LC_ALL": "C", "LANG": "C", "PYTHONUTF8": "0", "PYTHONCOERCECLOCALE": "0"}
+
+
+def shard_env(shard):
+    return dict(shard.get("env") or {})
 
 
 def run_shard(shard):
     acc = harness.Acc()
     setup()
+    if shard.get("env"):
+        if sys.getfilesystemencoding().lower().replace("-", "") == "utf8":
+            raise RuntimeError("the C-locale shard runs with a UTF-8 filesystem encoding: the environment did not take effect")
+        acc.count("shards_run_with_ascii_filesystem_encoding")
     if shard["kind"] == "boundary":
         for case in boundary_cases():
             run_case(case, acc)
